@@ -81,6 +81,7 @@ def run(tier, seed, t0):
         cmd = "cd /repo && cargo test --offline --no-default-features" + (f" --features {fl}" if fl else "")
         if rc_c != 0 or rc_t != 0 or (rc_r is not None and rc_r != 0):
             errs = re.findall(r"^error[^\n]*\n[^\n]*--> [^\n]*", out_c + out_t + out_r, re.M)[:3]
+            errs += re.findall(r"^test \S+ \.\.\. FAILED", out_r, re.M)[:5]
             cargo_fail.append(dict(features=list(s), command=cmd, documented=s in documented, errors=errs or [(out_c + out_t + out_r)[-600:]]))
         if (m_lib is not None and m_lib != (rc_c == 0)) or (m_test is not None and m_test != (rc_t == 0)):
             disagree.append(dict(features=list(s), model=(m_lib, m_test), cargo=(rc_c == 0, rc_t == 0)))
